@@ -434,7 +434,7 @@ def route(repo, res):
         cand_defs = [s for s in outer.body if isinstance(s, ast.Assign)]
         cands = {norm(s.targets[0]): s for s in cand_defs}
         inner = [f for f in ast.walk(outer) if isinstance(f, ast.For) and f is not outer]
-        ok = len(inner) == 1 and norm(inner[0].iter) in cands and canon(cands[norm(inner[0].iter)].value, None, None, [net]) == "%s.find_lanelet_by_id(%s[-1]).%s" % (net, pv, link)
+        ok = len(inner) == 1 and norm(inner[0].iter) in cands and canon(cands[norm(inner[0].iter)].value, rd, cands[norm(inner[0].iter)], [net]) == "%s.find_lanelet_by_id(%s[-1]).%s" % (net, pv, link)
         res.check("ROUTE-FLOW", "%s: candidates are the %s links of the path's last lanelet" % (fname, link), ok, m, inner[0] if inner else outer, "for .. in %s" % (norm(inner[0].iter) if inner else "?"), "paths are extended by something else than %s links" % link, qualname=qn)
         if not ok:
             continue
